@@ -135,7 +135,7 @@ func (ex *Exec) encodeStructInto(m *Map, st *types.Struct, s *Struct, fr *frame,
 
 // decodeInto builds a fresh value of type t from the JSON-universe value v. ok=false: type mismatch (error).
 func (ex *Exec) decodeInto(t types.Type, v Value, fr *frame, depth int) (Value, bool) {
-	if depth > 16 {
+	if depth > 60 {
 		panic(engineErr("json model: decode nesting too deep"))
 	}
 	iv := ex.forceIface(v)
